@@ -138,6 +138,8 @@ pub struct ExecOpts {
     pub alloc_monitor: bool,
     /// record a textual trace
     pub trace: bool,
+    /// property being checked (its own violations take precedence when a step shows several symptoms)
+    pub prop: String,
     /// running under Valgrind memcheck: no own instrumentation of storage, ask the tool after every step
     pub memcheck: bool,
 }
@@ -218,6 +220,7 @@ struct Ctx<'a> {
     /// first non-fatal finding of the run (reported if nothing else is found)
     soft: Option<Violation>,
     vg_errors: usize,
+    skip: u64,
 }
 
 fn hash_snap(h: &mut LogHash, s: &Snap) {
@@ -287,6 +290,18 @@ impl<'a> Ctx<'a> {
         Violation { class, step, op, via, sink, on_stack, faulted, panic_involved: false, ownership: false, context: String::new(), detail }
     }
 
+    /// Report a violation unless its class is masked (the strict checks of a step are re-run with
+    /// the classes already found masked, so that every symptom of the step is collected and the
+    /// property being checked can pick the one it owns).
+    #[inline]
+    fn emit(&self, v: Violation) -> Result<(), Violation> {
+        if self.skip & (1u64 << (v.class as u64)) != 0 {
+            Ok(())
+        } else {
+            Err(v)
+        }
+    }
+
     fn take_snaps(&mut self) {
         for s in 0..3 {
             self.snaps[s] = self.world.snapshot(s);
@@ -324,25 +339,25 @@ impl<'a> Ctx<'a> {
                     format!("slot {} ({}): element storage is not aligned to {} (vector object placed at an admissible address)", s, self.info.be_of(s).label(), self.info.align),
                 );
                 v.context = format!("{}/align={}", self.info.be_of(s).kind.name(), self.info.align);
-                return Err(v);
+                self.emit(v)?;
             }
         }
         let c = registry::counters();
         if c.double_drops > 0 {
-            return Err(self.viol(Class::DoubleDrop, step, p, faulted, format!("{} value(s) destroyed twice (first tag {})", c.double_drops, registry::first_bad_tag())));
+            self.emit(self.viol(Class::DoubleDrop, step, p, faulted, format!("{} value(s) destroyed twice (first tag {})", c.double_drops, registry::first_bad_tag())))?;
         }
         if c.garbage_drops > 0 || c.garbage_clones > 0 {
-            return Err(self.viol(
+            self.emit(self.viol(
                 Class::GarbageDrop,
                 step,
                 p,
                 faulted,
                 format!("{} destructor / {} clone call(s) on bytes that are not a live value", c.garbage_drops, c.garbage_clones),
-            ));
+            ))?;
         }
         let ev = env::take_violations();
         if let Some(m) = ev.into_iter().next() {
-            return Err(self.viol(Class::MemEnv, step, p, faulted, m));
+            self.emit(self.viol(Class::MemEnv, step, p, faulted, m))?;
         }
         for s in 0..3 {
             let sn = &self.snaps[s];
@@ -350,35 +365,35 @@ impl<'a> Ctx<'a> {
                 continue;
             }
             if !sn.len_le_cap {
-                return Err(self.viol(Class::LenGtCap, step, p, faulted, format!("slot {}: len {} > capacity {}", s, sn.len, sn.cap)));
+                self.emit(self.viol(Class::LenGtCap, step, p, faulted, format!("slot {}: len {} > capacity {}", s, sn.len, sn.cap)))?;
             }
             if !sn.aligned {
                 let mut v = self.viol(Class::Misaligned, step, p, faulted, format!("slot {} ({}): element storage is not aligned to {}", s, self.info.be_of(s).label(), self.info.align));
                 v.context = format!("{}/align={}", self.info.be_of(s).kind.name(), self.info.align);
-                return Err(v);
+                self.emit(v)?;
             }
             if let Some(j) = sn.spare_bad {
-                return Err(self.viol(
+                self.emit(self.viol(
                     Class::MemEnv,
                     step,
                     p,
                     faulted,
                     format!("slot {}: spare-capacity slot {} (len {}, capacity {}) holds bytes that are neither the poison put there, fresh-storage fill, a destroyed value nor a whole element: the operation copied from outside the initialised elements or outside the capacity", s, j, sn.len, sn.cap),
-                ));
+                ))?;
             }
             if !sn.object_guards_ok {
-                return Err(self.viol(Class::ObjectGuard, step, p, faulted, format!("slot {}: bytes around the vector object overwritten", s)));
+                self.emit(self.viol(Class::ObjectGuard, step, p, faulted, format!("slot {}: bytes around the vector object overwritten", s)))?;
             }
             if !sn.views_ok {
-                return Err(self.viol(Class::Views, step, p, faulted, format!("slot {}: len/is_empty/as_bytes/typed view/type id/layout reports inconsistent", s)));
+                self.emit(self.viol(Class::Views, step, p, faulted, format!("slot {}: len/is_empty/as_bytes/typed view/type id/layout reports inconsistent", s)))?;
             }
         }
         if let Some(m) = env::check() {
-            return Err(self.viol(Class::MemEnv, step, p, faulted, m));
+            self.emit(self.viol(Class::MemEnv, step, p, faulted, m))?;
         }
         if self.opts.alloc_monitor {
             if let Some(m) = simalloc::check() {
-                return Err(self.viol(Class::Alloc, step, p, faulted, m));
+                self.emit(self.viol(Class::Alloc, step, p, faulted, m))?;
             }
         }
         // storage block accounting
@@ -394,11 +409,11 @@ impl<'a> Ctx<'a> {
                 BeKind::Sim | BeKind::SimFixed => match env::lookup(sn.storage_addr) {
                     Some(b) => {
                         if b.len < bytes {
-                            return Err(self.viol(Class::MemEnv, step, p, faulted, format!("slot {}: capacity {} x {} B exceeds the storage block of {} B", s, sn.cap, size, b.len)));
+                            self.emit(self.viol(Class::MemEnv, step, p, faulted, format!("slot {}: capacity {} x {} B exceeds the storage block of {} B", s, sn.cap, size, b.len)))?;
                         }
                     }
                     None => {
-                        return Err(self.viol(Class::MemEnv, step, p, faulted, format!("slot {}: storage pointer is not the start of a live storage block", s)));
+                        self.emit(self.viol(Class::MemEnv, step, p, faulted, format!("slot {}: storage pointer is not the start of a live storage block", s)))?;
                     }
                 },
                 BeKind::Heap if self.opts.alloc_monitor => {
@@ -407,17 +422,17 @@ impl<'a> Ctx<'a> {
                         match simalloc::lookup(sn.storage_addr) {
                             Some((bsize, balign)) => {
                                 if bsize < bytes || balign < self.info.align {
-                                    return Err(self.viol(
+                                    self.emit(self.viol(
                                         Class::HeapBlock,
                                         step,
                                         p,
                                         faulted,
                                         format!("slot {}: heap block size {} align {} for capacity {} x {} B align {}", s, bsize, balign, sn.cap, size, self.info.align),
-                                    ));
+                                    ))?;
                                 }
                             }
                             None => {
-                                return Err(self.viol(Class::HeapBlock, step, p, faulted, format!("slot {}: capacity {} but storage is not a live heap block", s, sn.cap)));
+                                self.emit(self.viol(Class::HeapBlock, step, p, faulted, format!("slot {}: capacity {} but storage is not a live heap block", s, sn.cap)))?;
                             }
                         }
                     }
@@ -432,7 +447,7 @@ impl<'a> Ctx<'a> {
                 if sa.exists && sb.exists && sa.storage_addr != 0 && sb.storage_addr != 0 {
                     let (la, lb) = (sa.cap.saturating_mul(size), sb.cap.saturating_mul(size));
                     if la > 0 && lb > 0 && sa.storage_addr < sb.storage_addr.saturating_add(lb) && sb.storage_addr < sa.storage_addr.saturating_add(la) {
-                        return Err(self.viol(Class::SharedStorage, step, p, faulted, format!("slots {} and {} use overlapping element storage", a, b)));
+                        self.emit(self.viol(Class::SharedStorage, step, p, faulted, format!("slots {} and {} use overlapping element storage", a, b)))?;
                     }
                 }
             }
@@ -440,13 +455,13 @@ impl<'a> Ctx<'a> {
         if self.opts.alloc_monitor {
             let live = simalloc::counters().live;
             if live != heap_expected {
-                return Err(self.viol(
+                self.emit(self.viol(
                     Class::HeapBlock,
                     step,
                     p,
                     faulted,
                     format!("{} live heap block(s) owned by the library, {} expected (one per heap vector with capacity x size > 0)", live, heap_expected),
-                ));
+                ))?;
             }
         }
         Ok(())
@@ -470,20 +485,20 @@ impl<'a> Ctx<'a> {
     fn check_strict(&mut self, step: i32, p: &Pred, obs: &[Ev]) -> Result<(), Violation> {
         if obs.iter().any(|e| *e == Ev::Unsupported) {
             let diag = self.world.take_diag();
-            return Err(self.viol(Class::Unsupported, step, Some(p), 0, format!("harness: step variant not supported in this world, or harness panic: {} {:?}", diag, p.r)));
+            self.emit(self.viol(Class::Unsupported, step, Some(p), 0, format!("harness: step variant not supported in this world, or harness panic: {} {:?}", diag, p.r)))?;
         }
         if obs != &p.ev[..] {
             let diag = self.world.take_diag();
             let mut v = self.viol(Class::EvMismatch, step, Some(p), 0, format!("observed {:?}, model expects {:?} {}", short_ev(obs), short_ev(&p.ev), diag));
             v.panic_involved = obs.iter().chain(p.ev.iter()).any(|e| *e == Ev::Panic);
-            return Err(v);
+            self.emit(v)?;
         }
         self.check_common(step, Some(p), 0)?;
         for s in 0..3 {
             let sn = &self.snaps[s];
             let exp = self.model.vecs[s].as_ref();
             if sn.exists != exp.is_some() {
-                return Err(self.viol(Class::SnapMismatch, step, Some(p), 0, format!("slot {} existence", s)));
+                self.emit(self.viol(Class::SnapMismatch, step, Some(p), 0, format!("slot {} existence", s)))?;
             }
             if let Some(mv) = exp {
                 if sn.tags.iter().any(|t| *t == INVALID_TAG) {
@@ -496,27 +511,27 @@ impl<'a> Ctx<'a> {
                         format!("slot {}: element {} of {} is not a valid value (torn / poison / destroyed); expected {:?}", s, pos, sn.len, short_tags(&mv.tags)),
                     );
                     v.ownership = true;
-                    return Err(v);
+                    self.emit(v)?;
                 }
                 if sn.tags != mv.tags {
                     let mut v = self.viol(Class::SnapMismatch, step, Some(p), 0, format!("slot {}: contents {:?}, Vec model has {:?}", s, short_tags(&sn.tags), short_tags(&mv.tags)));
                     v.ownership = self.multiset_differs();
-                    return Err(v);
+                    self.emit(v)?;
                 }
             }
         }
         let pool = self.world.pool_tags();
         if pool != self.model.pool {
-            return Err(self.viol(Class::SnapMismatch, step, Some(p), 0, format!("extracted values {:?}, model {:?}", short_tags(&pool), short_tags(&self.model.pool))));
+            self.emit(self.viol(Class::SnapMismatch, step, Some(p), 0, format!("extracted values {:?}, model {:?}", short_tags(&pool), short_tags(&self.model.pool))))?;
         }
         if self.info.has_drop {
             if let Some((tag, e, a)) = registry::diff_counts(&self.model.counts) {
-                return Err(self.viol(Class::CountMismatch, step, Some(p), 0, format!("value {}: {} live instance(s), model expects {}", tag, a, e)));
+                self.emit(self.viol(Class::CountMismatch, step, Some(p), 0, format!("value {}: {} live instance(s), model expects {}", tag, a, e)))?;
             }
         }
         let c = registry::counters();
         if c.clones != self.model.clones {
-            return Err(self.viol(Class::CloneCount, step, Some(p), 0, format!("{} Clone calls so far, model expects {}", c.clones, self.model.clones)));
+            self.emit(self.viol(Class::CloneCount, step, Some(p), 0, format!("{} Clone calls so far, model expects {}", c.clones, self.model.clones)))?;
         }
         Ok(())
     }
@@ -662,29 +677,29 @@ impl<'a> Ctx<'a> {
                 CAP_RESERVE | CAP_RESERVE_EXACT => {
                     let need = len + r.n;
                     if a.cap < need {
-                        return Err(self.viol(Class::CapPost, step, Some(p), 0, format!("after reserve({}) on len {}: capacity {} < {}", r.n, len, a.cap, need)));
+                        self.emit(self.viol(Class::CapPost, step, Some(p), 0, format!("after reserve({}) on len {}: capacity {} < {}", r.n, len, a.cap, need)))?;
                     }
                     if b.cap >= need && (a.cap != b.cap || mem_now.cap_changes != mem_before.cap_changes || (self.opts.alloc_monitor && heap && seam_events != 0)) {
-                        return Err(self.viol(
+                        self.emit(self.viol(
                             Class::CapPost,
                             step,
                             Some(p),
                             0,
                             format!("reserve({}) with sufficient capacity {} (len {}) changed capacity to {} or touched the storage", r.n, b.cap, len, a.cap),
-                        ));
+                        ))?;
                     }
                 }
                 CAP_SHRINK_TO_FIT | CAP_SHRINK_TO => {
                     let bound = if r.kind == CAP_SHRINK_TO_FIT { len } else { len.max(r.n) };
                     if a.cap > b.cap {
-                        return Err(self.viol(Class::CapPost, step, Some(p), 0, format!("shrink increased capacity {} -> {} (len {}, bound {})", b.cap, a.cap, len, bound)));
+                        self.emit(self.viol(Class::CapPost, step, Some(p), 0, format!("shrink increased capacity {} -> {} (len {}, bound {})", b.cap, a.cap, len, bound)))?;
                     }
                     let floor = b.cap.min(bound);
                     if a.cap < floor {
-                        return Err(self.viol(Class::CapPost, step, Some(p), 0, format!("shrink went below the bound: capacity {} -> {} (len {}, bound {})", b.cap, a.cap, len, bound)));
+                        self.emit(self.viol(Class::CapPost, step, Some(p), 0, format!("shrink went below the bound: capacity {} -> {} (len {}, bound {})", b.cap, a.cap, len, bound)))?;
                     }
                     if heap && a.cap != floor {
-                        return Err(self.viol(Class::CapPost, step, Some(p), 0, format!("heap shrink: capacity {} -> {}, expected exactly {}", b.cap, a.cap, floor)));
+                        self.emit(self.viol(Class::CapPost, step, Some(p), 0, format!("heap shrink: capacity {} -> {}, expected exactly {}", b.cap, a.cap, floor)))?;
                     }
                     if a.cap < b.cap {
                         self.rep.probes |= P_SHRINK_BELOW_CAP;
@@ -696,7 +711,7 @@ impl<'a> Ctx<'a> {
         if r.op == Op::New && r.form == 1 && !panicked {
             let a = &self.snaps[r.slot];
             if a.cap < r.n {
-                return Err(self.viol(Class::CapPost, step, Some(p), 0, format!("with_capacity({}) gave capacity {}", r.n, a.cap)));
+                self.emit(self.viol(Class::CapPost, step, Some(p), 0, format!("with_capacity({}) gave capacity {}", r.n, a.cap)))?;
             }
         }
         let amortising = match self.info.be_of(r.slot).kind {
@@ -711,7 +726,7 @@ impl<'a> Ctx<'a> {
             let changes = (mem_now.cap_changes - mem_before.cap_changes) + (alloc_now.allocs + alloc_now.reallocs) - (alloc_before.allocs + alloc_before.reallocs);
             let log2 = 64 - (r.n as u64).leading_zeros() as u64;
             if changes > 3 * log2 + 10 {
-                return Err(self.viol(Class::CapPost, step, Some(p), 0, format!("{} pushes caused {} reallocations (> 3*log2+10 = {}): growth is not amortised", r.n, changes, 3 * log2 + 10)));
+                self.emit(self.viol(Class::CapPost, step, Some(p), 0, format!("{} pushes caused {} reallocations (> 3*log2+10 = {}): growth is not amortised", r.n, changes, 3 * log2 + 10)))?;
             }
         }
         Ok(())
@@ -833,7 +848,7 @@ pub fn run(scn: &Scenario, world: &mut dyn WorldOps, opts: &ExecOpts) -> RunRepo
     simalloc::begin_run(opts.alloc_monitor, scn.policy.realloc_moves != 0);
     world.configure(opts.free_place, opts.poison_spare);
     world.reset(scn.place);
-    let mut cx = Ctx { world, model: Model::new(info.clone()), info: info.clone(), snaps: Default::default(), h: LogHash::new(), rep: RunReport::default(), opts: opts.clone(), policy: scn.policy, soft: None, vg_errors: if opts.memcheck { crate::vg::count_errors() } else { 0 } };
+    let mut cx = Ctx { world, model: Model::new(info.clone()), info: info.clone(), snaps: Default::default(), h: LogHash::new(), rep: RunReport::default(), opts: opts.clone(), policy: scn.policy, soft: None, vg_errors: if opts.memcheck { crate::vg::count_errors() } else { 0 }, skip: 0 };
     cx.h.u64(scn.world as u64);
     cx.take_snaps();
 
@@ -1060,22 +1075,46 @@ fn run_steps(cx: &mut Ctx, scn: &Scenario) -> Result<(), Violation> {
             }
             cx.check_relaxed(step, &p, tag)?;
         } else {
-            cx.check_strict(step, &p, &obs)?;
             let panicked = obs.last() == Some(&Ev::Panic);
             let built = (m1.builds + m1.builds_sized) - (m0.builds + m0.builds_sized);
-            if !panicked && built != p.builds as u64 {
-                return Err(cx.viol(
-                    Class::MemEnv,
-                    step,
-                    Some(&p),
-                    0,
-                    format!("storage was requested from the back end {} time(s) in this step, expected {} (once per vector instance)", built, p.builds),
-                ));
+            // collect every symptom of the step: re-run the strict checks with the classes found so
+            // far masked; the property being checked reports the first one it owns
+            let mut found: Vec<Violation> = Vec::new();
+            cx.skip = 0;
+            for _ in 0..10 {
+                let r = strict_all(cx, step, &p, &obs, &before_snaps, m0, a0, panicked, built);
+                match r {
+                    Ok(()) => break,
+                    Err(v) => {
+                        cx.skip |= 1u64 << (v.class as u64);
+                        found.push(v);
+                    }
+                }
             }
-            cx.cap_post(step, &p, &before_snaps, m0, a0, panicked)?;
+            cx.skip = 0;
+            if !found.is_empty() {
+                let prop = cx.opts.prop.clone();
+                let pos = found.iter().position(|v| crate::profiles::owned(&prop, v)).unwrap_or(0);
+                return Err(found.swap_remove(pos));
+            }
         }
     }
     Ok(())
+}
+
+#[allow(clippy::too_many_arguments)]
+fn strict_all(cx: &mut Ctx, step: i32, p: &Pred, obs: &[Ev], before: &[Snap; 3], m0: env::MemCounters, a0: simalloc::AllocCounters, panicked: bool, built: u64) -> Result<(), Violation> {
+    cx.check_strict(step, p, obs)?;
+    if !panicked && built != p.builds as u64 {
+        cx.emit(cx.viol(
+            Class::MemEnv,
+            step,
+            Some(p),
+            0,
+            format!("storage was requested from the back end {} time(s) in this step, expected {} (once per vector instance)", built, p.builds),
+        ))?;
+    }
+    cx.cap_post(step, p, before, m0, a0, panicked)
 }
 
 fn self_on_stack_only(p: &Pred, info: &WorldInfo) -> bool {
